@@ -93,6 +93,7 @@ pub struct Unit {
     pub lockinv: Vec<(String, String)>,
     pub poolcall: Vec<(String, String, String)>,
     pub unit_types: Vec<String>,
+    pub methodfn: Vec<(String, String)>,
 }
 
 fn indent_of(l: &str) -> usize {
@@ -329,6 +330,7 @@ pub fn parse_unit(text: &str) -> Unit {
             "puremethods" => u.puremethods.extend(words),
             "variants" => {}
             "unittypes" => u.unit_types.extend(words),
+            "methodfn" => u.methodfn.push((words[0].clone(), words[1].clone())),
             "poolcall" => u.poolcall.push((words[0].clone(), words[1].clone(), words[2].clone())),
             "lockinv" => u.lockinv.push((words[0].clone(), words[1..].join(" "))),
             "verbatim" => u.verbatim.push((variants, block_text(&body))),
